@@ -14,6 +14,7 @@ import (
 	"log"
 	"net"
 	"sort"
+	"strings"
 	"sync"
 	"testing/synctest"
 
@@ -42,12 +43,18 @@ type Parked struct {
 	ch    chan Cmd
 }
 
-func (p *Parked) Key() string { return fmt.Sprintf("%s:%d", p.Point, p.Req) }
+func (p *Parked) Key() string {
+	if p.Conn == 0 {
+		return fmt.Sprintf("%s:%d", p.Point, p.Req)
+	}
+	return fmt.Sprintf("c%d/%s:%d", p.Conn, p.Point, p.Req)
+}
 
 // Event is one line of the external (and internal) trace.
 type Event map[string]any
 
 type ConnH struct {
+	Reqs    []*go9p.SrvReq // index = arrival number on this connection - 1
 	Idx     int
 	Conn    *go9p.Conn
 	cli     net.Conn
@@ -100,10 +107,13 @@ func (c *Ctl) idOfLocked(r *go9p.SrvReq, conn *go9p.Conn) int {
 	if id, ok := c.reqid[r]; ok {
 		return id
 	}
-	c.Reqs = append(c.Reqs, r)
-	c.ReqConn = append(c.ReqConn, c.connIdx[conn])
-	c.reqid[r] = len(c.Reqs)
-	return len(c.Reqs)
+	if conn == nil {
+		conn = r.Conn
+	}
+	ch := c.Conns[c.connIdx[conn]]
+	ch.Reqs = append(ch.Reqs, r)
+	c.reqid[r] = len(ch.Reqs)
+	return len(ch.Reqs)
 }
 
 func (c *Ctl) hook(point string, conn *go9p.Conn, req *go9p.SrvReq, nums []int) {
@@ -167,8 +177,10 @@ func (c *Ctl) ParkedKeys() []string {
 		ks = append(ks, p.Key())
 	}
 	for _, ch := range c.Conns {
-		if ch.Writing {
-			ks = append(ks, fmt.Sprintf("swriting:%d", ch.Idx))
+		if ch.Writing && ch.Idx == 0 {
+			ks = append(ks, "swriting:0")
+		} else if ch.Writing {
+			ks = append(ks, fmt.Sprintf("c%d/swriting:0", ch.Idx))
 		}
 	}
 	sort.Strings(ks)
@@ -177,7 +189,7 @@ func (c *Ctl) ParkedKeys() []string {
 
 func (c *Ctl) find(point string, req int, conn int) *Parked {
 	for _, p := range c.Parked() {
-		if p.Point == point && p.Req == req && (req != 0 || p.Conn == conn) {
+		if p.Point == point && p.Req == req && p.Conn == conn {
 			return p
 		}
 	}
@@ -186,6 +198,9 @@ func (c *Ctl) find(point string, req int, conn int) *Parked {
 
 // Grant releases the goroutine parked at (point, req) and waits for quiescence.
 func (c *Ctl) Grant(point string, req int) error { return c.GrantCmd(point, req, 0, Cmd{}) }
+
+// GrantP releases a specific parked goroutine.
+func (c *Ctl) GrantP(p *Parked, cmd Cmd) error { return c.GrantCmd(p.Point, p.Req, p.Conn, cmd) }
 
 func (c *Ctl) GrantCmd(point string, req int, conn int, cmd Cmd) error {
 	p := c.find(point, req, conn)
@@ -347,8 +362,15 @@ type Abs struct {
 func (c *Ctl) Abstract(ch *ConnH, nwire int) *Abs {
 	a := &Abs{Parked: c.ParkedKeys(), Rq: map[int]ReqAbs{}, Reqs: map[int]int{}, Fidref: map[int]int{}, Wire: nwire}
 	c.mu.Lock()
-	reqs := append([]*go9p.SrvReq(nil), c.Reqs...)
+	reqs := append([]*go9p.SrvReq(nil), ch.Reqs...)
 	c.mu.Unlock()
+	var mine []string
+	for _, k := range a.Parked {
+		if ch.Idx == 0 && !strings.Contains(k, "/") || ch.Idx != 0 && strings.HasPrefix(k, fmt.Sprintf("c%d/", ch.Idx)) {
+			mine = append(mine, k)
+		}
+	}
+	a.Parked = mine
 	id := func(r *go9p.SrvReq) int {
 		if r == nil {
 			return 0
@@ -358,9 +380,6 @@ func (c *Ctl) Abstract(ch *ConnH, nwire int) *Abs {
 		return c.reqid[r]
 	}
 	for i, r := range reqs {
-		if c.ReqConn[i] != ch.Idx {
-			continue
-		}
 		ri := go9p.VerifReqSnapshot(r)
 		a.Rq[i+1] = ReqAbs{ri.Flush, ri.Work, ri.Responded, ri.Saved, id(ri.Next), id(ri.Prev), id(ri.Flushreq)}
 	}
